@@ -41,12 +41,18 @@ def run_native(twin, replay_path, timeout=120):
     """returns dict(rc, reach, fails, out_sha, sanitizer, timeout)"""
     env = dict(os.environ, ASAN_OPTIONS="detect_leaks=0:abort_on_error=0:allocator_may_return_null=0:max_allocation_size_mb=2048",
                UBSAN_OPTIONS="halt_on_error=1:print_stacktrace=1")
+    timed_out = False
     try:
         r = subprocess.run([twin, replay_path], stdout=subprocess.PIPE, stderr=subprocess.PIPE, timeout=timeout, env=env)
-    except subprocess.TimeoutExpired:
-        return {"rc": None, "timeout": True, "reach": [], "fails": [], "out_sha": None, "sanitizer": None, "stderr": ""}
-    out = r.stdout.decode("latin1")
-    err = r.stderr.decode("latin1")
+        out = r.stdout.decode("latin1")
+        err = r.stderr.decode("latin1")
+        rcode = r.returncode
+    except subprocess.TimeoutExpired as te:
+        # keep what was printed before the time-out (assertion lines are flushed as they happen)
+        timed_out = True
+        out = (te.stdout or b"").decode("latin1")
+        err = (te.stderr or b"").decode("latin1")
+        rcode = None
     reach, fails, osha, ended = [], [], None, False
     for line in out.split("\n"):
         if line.startswith("REACH "):
@@ -62,7 +68,7 @@ def run_native(twin, replay_path, timeout=120):
     m = re.search(r"(ERROR: AddressSanitizer: [\w-]+|runtime error: [^\n]+|terminate called[^\n]*\n[^\n]*|AddressSanitizer: requested allocation size[^\n]*|AddressSanitizer:DEADLYSIGNAL)", err)
     if m:
         san = m.group(1).replace("\n", " ")
-    return {"rc": r.returncode, "timeout": False, "reach": reach, "fails": fails, "out_sha": osha, "sanitizer": san,
+    return {"rc": rcode, "timeout": timed_out, "reach": reach, "fails": fails, "out_sha": osha, "sanitizer": san,
             "ended": ended, "assume_fail": "ASSUME-FAIL" in out, "desync": "REPLAY-DESYNC" in out, "stderr": err[-1500:]}
 
 
